@@ -54,12 +54,18 @@ class Gen:
         if k < 0.1:
             return r.choice([b"+", b"-", b"*", b"<=", b"->x", b".", b"..", b"+a", b"-a"])
         if k < 0.35:
-            return (self.ident() + "/" + self.ident()).encode()
+            return (self.nsname() + "/" + self.ident()).encode()
         return self.ident().encode()
+
+    def nsname(self):
+        # namespaces that extension code paths treat specially (the `_` opt-out of namespaced maps) are ordinary in core positions
+        if self.r.random() < 0.15:
+            return self.r.choice(["_", "__", "_x", "x_"])
+        return self.ident()
 
     def keyword(self):
         if self.r.random() < 0.3:
-            return (":" + self.ident() + "/" + self.ident()).encode()
+            return (":" + self.nsname() + "/" + self.ident()).encode()
         return (":" + self.ident()).encode()
 
     def integer(self):
